@@ -455,8 +455,14 @@ class GraphBuilder:
         if not nodes:
             logger.warning("No nodes in graph builder, building an empty model")
 
+        # nodes popped or copied out of a model keep the seed inputs of that model
+        model_seeds = [node.kwinputs.get("seed") for node in nodes if node.needs_seed]
+
         for node in nodes:
             if node.name.startswith("_model"):
+                if any(node is seed for seed in model_seeds):
+                    continue
+
                 raise RuntimeError(f"{repr(node)} has reserved name '_model*'")
 
         gb = self.copy()
